@@ -229,6 +229,10 @@ def run(tier, seed, only=None):
 
     groups.wiring_check(rep, lambda: SpatialBeamAlone(surface=sa), "SpatialBeamAlone(tube, weight relief)", fam, timeout,
                         assume_for={"CreateRHS": big_loads}, abstract=("total_loads.total_loads", "vonmises.vonmises"))
+    # the loads reach the right-hand side in the units the structure works in: no unit-carrying load is joined to a unitless
+    # input anywhere between the load transfer and the solve (the real aerostructural model, tube)
+    sas = dict(st, twist_cp=np.zeros(2), thickness_cp=np.array([0.1, 0.2]), struct_weight_relief=True, n_point_masses=1)
+    groups.units_check(rep, groups.aerostruct_problem(sas), "AerostructPoint model (tube, weight relief, point masses)")
     rep.bounds = {"cases": [c[0] for c in cfg]}
     rep.assumptions = ["real arithmetic", "sparse LU accuracy not modelled (the equation being solved is what is compared)",
                        "loads above the 1e-6 N zeroing threshold", "elements not parallel to the x axis (|e1 x xhat| != 0)"]
